@@ -103,6 +103,14 @@ func (t *SymbolTable) Str(sym String) string {
 	return (*t)[int(sym)-1024]
 }
 
+// Has reports whether the index denotes a symbol: a default symbol or an entry of the table.
+func (t *SymbolTable) Has(sym String) bool {
+	if uint64(sym) < 1024 {
+		return uint64(sym) < uint64(len(DEFAULT_SYMBOLS))
+	}
+	return uint64(sym)-1024 < uint64(len(*t))
+}
+
 func (t *SymbolTable) Var(v Variable) string {
 	if int(v) < 1024 {
 		if int(v) > len(DEFAULT_SYMBOLS)-1 {
